@@ -89,14 +89,26 @@ def _held_starts(T, env, b, sa):
     return starts
 
 
+def _verdict_type(env, b):
+    """b returns a bool or a field-less enum of the crate (a verdict about what it saw, not a reservation)"""
+    rt = b.locals[0]["ty"]["s"].replace("core::", "std::")
+    if rt == "bool":
+        return True
+    from facts import norm_std
+    a = env.F.adts.get(norm_std(rt.split("<")[0]))
+    return bool(a) and a.get("kind") == "Enum" and not any(v["fields"] for v in a["variants"])
+
+
 def _probe_chain(env, T, e):
-    """the load event e (inlined from a callee of the analysed function) is not inside a loop of any function between the
-    analysed function and the load: each execution of the call site reads the counter exactly once"""
-    frames = [(fr[0], fr[1]) for fr in e.info["chain"][1:]] + [(e.body, e.bb)]
-    for (bd, bb) in frames:
-        if any(bb in lb for (_h, lb) in bd.natural_loops()):
-            return False
-    return True
+    """the load event e was inlined from a probing helper of the ticket implementor: a loop-free function returning a
+    verdict (bool / field-less enum), reached through loop-free functions only — each execution of the call site in the
+    analysed function reads the counter exactly once, so a loop around that call site is the wait loop"""
+    frames = [fr[0] for fr in e.info["chain"][1:]] + [e.body]
+    if any(bd.natural_loops() for bd in frames):
+        return False
+    top = e.info["chain"][0][0] if e.info["chain"] else e.body
+    o = owner_of(env, e, top)
+    return o.def_ != top.def_ and env.F.impl_self_adt(o) == T.adt and _verdict_type(env, o)
 
 
 def _is_probe(env, T, b, sa, own_loads):
@@ -107,12 +119,8 @@ def _is_probe(env, T, b, sa, own_loads):
         return False
     if b.natural_loops():
         return False
-    rt = b.locals[0]["ty"]["s"].replace("core::", "std::")
-    if rt != "bool":
-        from facts import norm_std
-        a = env.F.adts.get(norm_std(rt.split("<")[0]))
-        if not a or a.get("kind") != "Enum" or any(v["fields"] for v in a["variants"]):
-            return False
+    if not _verdict_type(env, b):
+        return False
     callers = all_callers(env, b.def_)
     return bool(callers) and all(any(bb in lb for (_h, lb) in cb.natural_loops()) for (cb, bb) in callers)
 
